@@ -127,6 +127,8 @@ func body(in inst, file []byte, out *outcome) sched.Body {
 
 // solo computes the reference outcome of an instance: alone, ideal pool.
 func solo(in inst) (outcome, []byte) {
+	sched.DataChoices = true
+	sched.StateHashing = false
 	pool.BufferPoints = false
 	pool.Mode = pool.Ideal
 	pool.ResetAll()
@@ -153,6 +155,7 @@ func solo(in inst) (outcome, []byte) {
 // ---------------------------------------------------------------- scenarios
 
 type scenario struct {
+	Unbounded bool   `json:"unbounded_state_hashed,omitempty"`
 	BufPoints bool   `json:"buffer_method_points,omitempty"`
 	Name      string `json:"name"`
 	Insts     []inst `json:"instances"`
@@ -201,6 +204,35 @@ func scenarios(thorough bool) []scenario {
 		add("A+C gzip", []inst{w("mini", 2, 1), r("mini", 2)}, 1, 2)
 		add("A+A'+B snappy", []inst{w("mini", 1, 0), w("mini", 1, 1), w("flat3", 1, 0)}, 2, 2)
 	}
+	// every column kind (24 columns incl. required bools): stale pool contents
+	// leaking into any column's page show up at 0-1 deviations under poison
+	add("F+F' snappy (flat24, all column kinds)", []inst{w("flat24", 1, 0), w("flat24", 1, 1)}, 1, 1)
+	add("F+A uncompressed", []inst{w("flat24", 0, 0), w("mini", 0, 0)}, 1, 1)
+	// no deviation bound at all: every interleaving at the pool/sink/source
+	// points, pruned at already visited global states
+	for _, u := range []scenario{
+		{Name: "A+B snappy", Insts: []inst{w("mini", 1, 0), w("flat3", 1, 0)}},
+		{Name: "A+A' snappy", Insts: []inst{w("mini", 1, 0), w("mini", 1, 1)}},
+		{Name: "A+A' uncompressed", Insts: []inst{w("mini", 0, 0), w("mini", 0, 1)}},
+		{Name: "A+A' gzip", Insts: []inst{w("mini", 2, 0), w("mini", 2, 1)}},
+		{Name: "A+C snappy", Insts: []inst{w("mini", 1, 1), r("mini", 1)}},
+	} {
+		for _, mode := range []int{pool.ReusePoison, pool.Reuse} {
+			if os.Getenv("VERIF_C13_UNBOUNDED") == "" {
+				// Tried and dropped from the registered tiers: the global state
+				// space does not close (buffer capacities and contents are part
+				// of every thread's state: > 10^7 states in 30 minutes without
+				// finishing, with or without pool data choices).  The bounded
+				// passes are what the evidence reports.
+				continue
+			}
+			u.Mode = mode
+			u.Unbounded = true
+			u.Name = u.Name + " [unbounded]"
+			out = append(out, u)
+			u.Name = strings.TrimSuffix(u.Name, " [unbounded]")
+		}
+	}
 	// every ByteBuffer method as a scheduling point too (no reduction)
 	bp := 1
 	if thorough {
@@ -243,7 +275,13 @@ func (p *prepared) reset() {
 }
 
 func (p *prepared) explorer(outs *[]outcome) *sched.Explorer {
-	e := &sched.Explorer{Bound: p.sc.Bound, Horizon: 200000, Outcomes: map[string]int{}}
+	e := &sched.Explorer{Bound: p.sc.Bound, Horizon: 200000, Outcomes: map[string]int{}, Unbounded: p.sc.Unbounded}
+	sched.StateHashing = p.sc.Unbounded
+	// the unbounded pass enumerates every interleaving but keeps the pool's
+	// answers at their default (LIFO); pool deviations are covered by the
+	// bounded passes (with them the global state space does not close: > 10^7
+	// states without finishing)
+	sched.DataChoices = !p.sc.Unbounded
 	e.Reset = p.reset
 	e.Bodies = func() []sched.Body {
 		*outs = make([]outcome, len(p.sc.Insts))
@@ -337,6 +375,16 @@ func run(c *fw.Ctx) {
 		}
 	}()
 	scs := scenarios(c.Thorough())
+	if only := os.Getenv("VERIF_C13_ONLY"); only != "" {
+		// development aid: restrict to scenarios whose name contains the string
+		var f []scenario
+		for _, sc := range scs {
+			if strings.Contains(sc.Name, only) {
+				f = append(f, sc)
+			}
+		}
+		scs = f
+	}
 	var names []string
 	for _, sc := range scs {
 		names = append(names, fmt.Sprintf("%s mode=%d seeds=%v bound=%d", sc.Name, sc.Mode, sc.Seeds, sc.Bound))
@@ -369,8 +417,15 @@ func run(c *fw.Ctx) {
 		c.DistinctN(e.Executions) // each execution is a distinct choice sequence
 		totalExec += e.Executions
 		totalPoints += e.Points
+		if sc.Unbounded {
+			c.Count("unbounded_distinct_global_states", int64(len(e.Seen)))
+			c.Count("unbounded_pruned_revisits", e.Pruned)
+			if e.Capped {
+				c.Note("unbounded pass of %s did not finish", sc.Name)
+			}
+		}
 		if c.Shard == 0 {
-			c.Bound(fmt.Sprintf("scenario_%02d", si), fmt.Sprintf("%s: max choice points per execution %d, distinct outcomes %d", sc.Name, e.MaxPoints, len(e.Outcomes)))
+			c.Bound(fmt.Sprintf("scenario_%02d", si), fmt.Sprintf("%s: max choice points per execution %d, distinct outcomes %d, unbounded=%v states(shard 0)=%d", sc.Name, e.MaxPoints, len(e.Outcomes), sc.Unbounded, len(e.Seen)))
 			if c.WantSample() {
 				c.Sample(map[string]interface{}{"scenario": sc, "executions_this_shard": e.Executions, "max_points": e.MaxPoints})
 			}
